@@ -1,6 +1,7 @@
 import Ach.Proofs.Create
 import Ach.Generated.Topics
 import Ach.Model.CreateDriver
+import Ach.Proofs.FileCreate
 /-!
 # C05 — Create tabulates a valid, stable file; offsets balance every batch  (batch level)
 
@@ -16,8 +17,18 @@ addenda sequence numbers and the control record; the slice expression is the gen
 * `upsert_counterexample_*` — with the historical `Entries[i+i:]` the model panics, hangs, or silently loses an
   offset entry (this is the defect fixed in /repo commit f0940535).
 
-Not yet modelled here: `File.Create` (batch numbering, file control) and the SEC-specific `Create` wrappers — covered by
-the oracle only.
+File level — model `Ach.Model.FileCreate` (the numbering loop over standard then IAT batches with one running counter,
+the file control summed from the batch controls), tied by the `filecreate` correspondence stream (real `File.Create` on
+files whose batch numbers and control figures were set to arbitrary values):
+
+* `file_create_validates` — the file `File.Create` leaves passes `File.ValidateWith` whenever its header validates, its
+  batches validate (Create only renumbers them) and the numbering the loop leaves is ascending;
+* `file_create_fresh_ascending` — which it always is for batches numbered ≤ 1 (fresh from the constructors): 1, 2, 3, …;
+* `file_create_control` — the file control equals the figures recomputed from the batch controls, for every input;
+* `file_create_idempotent` — `Create` again changes nothing (numbers and control).
+A file with pre-set numbers > 1 can come out non-ascending (`[5, 0] ↦ [5, 2]`, known finding, `Props.C11`).
+
+Not modelled: `createFileADV` and the SEC-specific `Create` wrappers — covered by the oracle only.
 -/
 namespace Ach.Props.C05
 open Ach Ach.Gen
@@ -105,6 +116,42 @@ example : ∃ b', build 1 (demoBatch [demoEntry 22 100 "" false, demoEntry 27 50
     (∀ e ∈ b'.entries, e.isOffset = true → buildEntry b' 0 e = some e) := by
   refine ⟨_, rfl, ?_⟩
   decide +kernel
+
+/-! ## File.Create -/
+
+open Ach.FileCreate in
+theorem file_create_validates (o : Opts) (f : VFile) (hdrs : List Int) (hlen : hdrs.length = f.iatControls.length)
+    (hh : o.allowMissingFileHeader = true ∨ f.headerOK = true)
+    (hb : ∀ b ∈ f.batches, batchValidate o b = true)
+    (hasc : o.allowUnorderedBatchNumbers = true ∨ o.customTraceNumbers = true ∨ batchNumbersAscend 0 (renumber 1 f.batches) = true) :
+    fileValidate o (fileCreate f hdrs true) = true := fileCreate_validates o f hdrs hlen hh hb hasc
+
+open Ach.FileCreate in
+theorem file_create_fresh_ascending (bs : List VBatch) (h : ∀ b ∈ bs, b.header.batchNumber ≤ 1) :
+    batchNumbersAscend 0 (renumber 1 bs) = true := renumber_fresh_ascending bs 1 0 (by omega) h
+
+open Ach.FileCreate in
+theorem file_create_control (f : VFile) (hdrs : List Int) (ok : Bool) :
+    let g := fileCreate f hdrs ok
+    g.control.batchCount = (allControls g).length ∧
+    g.control.entryAddendaCount = sumBy (·.entryAddendaCount) (allControls g) ∧
+    g.control.entryHash = leastSignificantDigits (sumBy (·.entryHash) (allControls g)) 10 ∧
+    g.control.totalDebit = sumBy (·.totalDebit) (allControls g) ∧
+    g.control.totalCredit = sumBy (·.totalCredit) (allControls g) := by
+  simp [fileCreate, allControls, sumControls]
+
+open Ach.FileCreate in
+theorem file_create_idempotent (f : VFile) (hdrs : List Int) (hlen : hdrs.length = f.iatControls.length) (ok : Bool) :
+    fileCreate (fileCreate f hdrs ok) (newNumbers (1 + f.batches.length) hdrs) ok = fileCreate f hdrs ok :=
+  fileCreate_idempotent f hdrs hlen ok
+
+def demoVBatch (n eac hash d c : Int) : VBatch := ⟨⟨200, [], [], n⟩, [], ⟨200, eac, hash, d, c, [], [], n⟩, true⟩
+
+/-- non-vacuity: three batches numbered 0, 0, 7 come out 1, 2, 7 with the control summed (hash cut to 10 digits) -/
+example :
+    let g := Ach.FileCreate.fileCreate ⟨true, [demoVBatch 0 3 1234 100 50, demoVBatch 0 2 99 0 10, demoVBatch 7 5 9999999999 7 7], [], ⟨0, 0, 0, 0, 0⟩, true⟩ [] true
+    (g.batches.map (·.header.batchNumber), g.batches.map (·.control.batchNumber), g.control) =
+      ([1, 2, 7], [1, 2, 7], ⟨3, 10, 1332, 107, 67⟩) := by decide +kernel
 
 /-- F: the functions `Ach.Model.Create` mirrors by hand have the bodies the model was written against -/
 theorem create_functions_unchanged : hashes_create = [("File.Create", 206460734504824362), ("File.createFileADV", 7914545407192902951), ("Batch.build", 9945901091926620191), ("Batch.upsertOffsets", 13389808617865457086), ("createOffsetEntryDetail", 819736143008900615), ("lastTraceNumber", 11642321305391312867), ("EntryDetail.SetTraceNumber", 556215407367731719), ("IATBatch.build", 9896163527177086157), ("IATBatch.Create", 16606746237067222751)] := by decide +kernel
